@@ -581,6 +581,7 @@ class Sim:
     result['counters'] = dict(self.counters)
     result['threads'] = len(self.threads)
     result['tail'] = list(self.tail)
+    result['thread_names'] = {t.tid: t.name for t in self.threads}
     result['scratch'] = self.scratch
     return result
 
